@@ -150,8 +150,11 @@ func (s *Sim) Step(op *Op) {
 		return
 	}
 	if op.Kind == "connect" && s.Slots[op.C].connected {
-		s.M.count("skipped_ops_already_connected")
-		return
+		// the generator believed this connection gone (armed write fault that did not fire yet): drop it first
+		s.M.count("implicit_drop_before_connect")
+		s.opDisconnect(&Op{Kind: "disconnect", C: op.C, How: "drop"})
+		s.settle()
+		s.endStep()
 	}
 	switch op.Kind {
 	case "connect":
@@ -345,6 +348,10 @@ func (s *Sim) endStep() {
 				for t := range sl.Sess.Taint {
 					attrs["taint_"+t] = "true"
 				}
+			}
+			if e.Msg != nil && e.Msg.IsWill {
+				attrs["will_why"] = e.Msg.WillWhy
+				attrs["will_erased_risk"] = fmt.Sprint(e.Msg.WillErasedRisk)
 			}
 			m.flag(e.Rule, attrs, "slot %d (%s): expected %s not received by quiescence: %s", sl.Idx, sl.ClientID, rc.TypeNames[e.Kind], e.What)
 		}
@@ -578,6 +585,16 @@ func (s *Sim) onBrokerPublish(sl *Slot, rp *eng.RxPacket) {
 		return
 	}
 	m.count("publish_delivered")
+	if msg.IsWill {
+		// the owner's connection may have been ended by the broker in this very round: let the model catch up first
+		for _, o := range s.Slots {
+			if o.connected && o.ClientID == msg.From && o.Sess != nil && o.Sess.WillSlot != nil && o.Sess.WillSlot.Payload == msg.ID {
+				if closed, _ := o.Conn.MC.BrokerClosed(); closed || o.Conn.Done() {
+					s.onBrokerClosed(o)
+				}
+			}
+		}
+	}
 	// ---- find the expectation
 	var exp *Expect
 	for pass := 0; pass < 3 && exp == nil; pass++ {
@@ -610,7 +627,23 @@ func (s *Sim) onBrokerPublish(sl *Slot, rp *eng.RxPacket) {
 			attrs["has_matching_sub"] = fmt.Sprint(len(plain)+len(shared) > 0)
 			attrs["shared"] = fmt.Sprint(len(shared) > 0)
 		}
-		if s.deliveredBefore(sl, msg) {
+		if msg.IsWill && (!s.deliveredBefore(sl, msg) || m.WillDisp[msg.ID] != "published") {
+			attrs["disposition"] = m.WillDisp[msg.ID]
+			if attrs["disposition"] == "" {
+				attrs["disposition"] = "connection-still-open"
+			}
+			if attrs["disposition"] == "published" {
+				attrs["late"] = fmt.Sprint(msg.Step < m.Step)
+				attrs["will_why"] = msg.WillWhy
+			}
+			// a delayed will that fires while a newer connection holds the same client id erases that connection's will
+			if t := m.Sessions[msg.From]; t != nil && t.WillSlot != nil && t.WillSlot.Payload != msg.ID {
+				if wm := m.Msgs[t.WillSlot.Payload]; wm != nil {
+					wm.WillErasedRisk = true
+				}
+			}
+			m.flag("C16/will-published-not-due", attrs, "slot %d (%s): received will %s of %s on %q although the model says: %s", sl.Idx, sl.ClientID, msg.ID, msg.From, msg.Topic, attrs["disposition"])
+		} else if s.deliveredBefore(sl, msg) {
 			m.flag("C03/duplicate-delivery", attrs, "slot %d (%s): second copy of %s (%s)", sl.Idx, sl.ClientID, msg.ID, msg.Topic)
 		} else {
 			m.flag("C03/unentitled-delivery", attrs, "slot %d (%s): received %s on %q (from %s) without being entitled", sl.Idx, sl.ClientID, msg.ID, msg.Topic, msg.From)
